@@ -24,7 +24,7 @@ import unit as U
 import props as P
 
 VERIF = U.VERIF
-EVID = os.path.join(VERIF, 'evidence')
+EVID = os.environ.get('VERIF_EVIDENCE_DIR', os.path.join(VERIF, 'evidence'))   # overridden only by the mutant-testing helper
 REPLAY = os.path.join(VERIF, 'replays')
 
 
